@@ -143,7 +143,7 @@ func (ex *Exec) effectsOf(fr *Frame, blocks map[*ssa.BasicBlock]bool) *loopEffec
 		if fn == nil {
 			if top := fr.topFrame(); top.con != nil && curSite != nil {
 				txt := ex.prog.callFunText(curSite.Pos())
-				for _, a := range append(append([]string{}, top.con.AssumePure...), top.con.AssumeFresh...) {
+				for _, a := range append(append(append([]string{}, top.con.AssumePure...), top.con.AssumeFresh...), top.con.Calls...) {
 					if a == txt {
 						return
 					}
